@@ -131,9 +131,15 @@ func Iter(s uint32) int {
 	return n
 }
 
+func mk(k int) []uint32 {
+	var r []uint32
+	r = append(r, uint32(k))
+	return r
+}
+
 func init() {
 	rows = make([][]uint32, 3)
 	for k := 1; k <= 2; k++ {
-		rows[k] = append(rows[k-1], uint32(k))
+		rows[k] = mk(k)
 	}
 }
